@@ -32,6 +32,9 @@ def run(ck):
     machine.run_family(ck, "history-ops", runs)
     cancelled = [dict(p) for p in ops if p["kind"] == "run_cancelled"]
     machine.run_family(ck, "history-ops-cancel", cancelled, with_signal=True)
+    # unbounded: the pooled-object discipline as an inductive invariant (Apalache): histories of ANY length, not only <= MaxLen
+    if not q:
+        ck.note("apalache_inductive_NoStaleRead_s", vlib.apalache_inductive("HistoryInd"))
     ck.cov["exhaustive"] = True
     ck.cov["rule"] = ("all histories up to length %d over a pool of %d operations (run ok, syntax error at EOF / mid-expression, lexical "
                       "error, check failure, run failing inside nested loops with break/continue pending / inside an if body / in a loop condition "
@@ -41,5 +44,6 @@ def run(ck):
                       "run reading every name and key earlier runs assigned) enumerated by TLC (pooled-object model: NoStaleRead); each history is executed "
                       "in one process pinned to one P with GC off (deterministic sync.Pool reuse) with pooled points, and every "
                       "operation's canonical result must equal the result of the same operation performed first in a fresh process. "
-                      "distinct = histories of length >= 2." % (maxlen, len(ops)))
+                      "In the thorough tier HistoryInd!IndInv (no stale read, dirty fields within the object) is established as an inductive invariant by "
+                      "Apalache, i.e. for histories of any length over the operation classes. distinct = histories of length >= 2." % (maxlen, len(ops)))
     ck.assumptions += ["map iteration order is not compared (results are rendered with sorted keys)"]
